@@ -98,7 +98,10 @@ def reversal_specs(ctx, n):
             spec = G.random_network(rng, quick=True, force={"n_nodes": rng.choice([3, 4, 5, 6, 8, 10])})
             if i % 2 == 1 or any(nd["type"] == "tank" for nd in spec["nodes"]):
                 break
-        out.append(G.add_reversal_edits(rng, spec))
+        G.add_reversal_edits(rng, spec)
+        if i % 2 == 0:
+            G.add_name_collisions(rng, spec)   # after the edits: the source sits on a node the (reversed / re-assigned) link touches THEN
+        out.append(spec)
     return out
 
 
@@ -229,6 +232,8 @@ def features(spec):
         "link_tank_to_tank": any(l["start"] in tanks and l["end"] in tanks for l in elinks),
         "link_reservoir_to_reservoir": any(l["start"] not in tanks and l["end"] not in tanks and
                                            {l["start"], l["end"]} <= set(n["name"] for n in srcs) for l in elinks),
+        "name_collisions_across_kinds": bool(spec.get("sources")),
+        "pattern_edited_in_place": bool(spec.get("pattern_inplace")),
         "second_run_after_edit": bool(spec.get("features", {}).get("second_run")),
         "valve_setting_changed_by_control": any(c.get("attr", "setting") == "setting" for c in spec.get("controls", [])),
         "valve_setting_changed_by_postsolve_condition": any(c.get("cond") for c in spec.get("controls", [])),
@@ -284,9 +289,13 @@ def gen_specs(ctx, n_random, n_scen):
         sp = G.scenario_network(rng, nm, variant=0)
         sp["options"]["trials"] = [1, 2, 1, 3, 2, 1, 2, 3, 1, 2][k % 10]
         sp["options"]["unbalanced"] = ["CONTINUE", "CONTINUE", "STOP", "CONTINUE", "CONTINUE", "STOP", "STOP", "CONTINUE", "CONTINUE", "STOP"][k % 10]
+        sp["hw_approx"] = ["piecewise", "default"][k % 2]
         sp["features"]["status_iteration_options"] = True
         specs.append(sp)
         k += 1
+    if n_scen >= len(G.SCENARIOS):
+        specs.append(G.scenario_network(rng, "tank_limit", variant=0))   # piecewise
+        specs.append(G.scenario_network(rng, "tank_limit", variant=1))   # default
     for v in range(6):  # every cut-set variant on every run (DD: 0, 2, 4, 5; PDD: 1, 3)
         if n_scen >= len(G.SCENARIOS):
             specs.append(G.scenario_network(rng, "cutset", variant=v))
@@ -415,6 +424,7 @@ def zoo_agreement(ctx, wntr, which, names, mode, approx, n_points, pick):
 
 def dd_line(spec, nd, t):
     o = spec["options"]
+    pats = G.effective_patterns(spec)
     ents = []
     dem = nd.get("demands", [])
     if not dem:
@@ -423,10 +433,10 @@ def dd_line(spec, nd, t):
         if d.get("pattern") is None:
             ents.append("%s:-" % fr(d["base"]))
         else:
-            ents.append("%s:1:%s" % (fr(d["base"]), ",".join(fr(x) for x in spec["patterns"][d["pattern"]])))
+            ents.append("%s:1:%s" % (fr(d["base"]), ",".join(fr(x) for x in pats[d["pattern"]])))
     line = "dd %d %d %d %d %s %s" % (o["pattern_timestep"], 1 if o.get("pattern_interpolation") else 0, o["pattern_start"], t,
                                       fr(o["demand_multiplier"]), " ".join(ents))
-    scale = sum(abs(d["base"]) * max([1.0] + [abs(x) for x in (spec["patterns"][d["pattern"]] if d.get("pattern") else [])]) for d in dem) * abs(o["demand_multiplier"])
+    scale = sum(abs(d["base"]) * max([1.0] + [abs(x) for x in (pats[d["pattern"]] if d.get("pattern") else [])]) for d in dem) * abs(o["demand_multiplier"])
     return line.strip(), scale
 
 
